@@ -1,19 +1,22 @@
 #!/bin/bash
-# usage: tools/run_seeded.sh <seed-dir-name> [check ids...]   - applies /verif/seeded/<name>/patch.diff to /repo, runs the quick
-# checks (default: the property named in meta.json), reverts the patch, prints one line per check. Never commits anything in /repo.
+# usage: tools/run_seeded.sh <seed-dir-name> [check ids...]
+# Runs the quick checks (default: the property named in meta.json) against a scratch copy of /repo with
+# /verif/seeded/<name>/patch.diff applied (VERIF_REPO points the driver at the copy; evidence and replay files of these runs go
+# to a scratch directory, not to /verif/evidence). /repo itself is never modified. Prints one line per check.
 set -u
 name=$1; shift
 dir=/verif/seeded/$name
 [ -f $dir/patch.diff ] || { echo "no such seed: $name"; exit 2; }
 checks="$@"
 [ -z "$checks" ] && checks=$(python3 -c "import json;print(json.load(open('$dir/meta.json'))['property'])")
-if ! git -C /repo diff --quiet; then echo "/repo has uncommitted changes - refusing"; exit 2; fi
-git -C /repo apply $dir/patch.diff || { echo "patch does not apply"; exit 2; }
-trap 'git -C /repo checkout -- . ' EXIT
+scratch=$(mktemp -d /tmp/seedrun-$name-XXXX)
+trap 'rm -rf $scratch' EXIT
+mkdir -p $scratch/repo && git -C /repo archive HEAD include | tar -x -C $scratch/repo
+( cd $scratch/repo && patch -p1 -s < $dir/patch.diff ) || { echo "patch does not apply"; exit 2; }
 cd /verif
 for c in $checks; do
-  s=$(date +%s); out=$(./vf check $c --tier quick 2>&1); rc=$?; e=$(date +%s)
+  s=$(date +%s); out=$(VERIF_REPO=$scratch/repo VERIF_OUT=$scratch/out ./vf check $c --tier ${TIER:-quick} 2>&1); rc=$?; e=$(date +%s)
   nv=$(echo "$out" | grep -c '^VIOLATION')
   echo "seed=$name check=$c exit=$rc violations=$nv wall=$((e-s))s :: $(echo "$out" | tail -1)"
-  echo "$out" | grep -E "^VIOLATION|counterexample:|UNDECIDED" | head -4
+  echo "$out" | grep -E "counterexample:|UNDECIDED" | head -3 | cut -c1-400
 done
